@@ -31,6 +31,9 @@ func genPair(t *rapid.T, cx *h.Ctx, disjointMembers bool, stats *gen.Stats) Pair
 	if cx.Thorough {
 		kmax = 4
 	}
+	if rapid.IntRange(0, 7).Draw(t, "holefamily") == 0 {
+		return genHolePair(t, cx, disjointMembers, stats)
+	}
 	k := rapid.IntRange(2, kmax).Draw(t, "k")
 	ca := gen.DrawComplex(t, k, [2]int{0, 0})
 	var cb gen.Complex
@@ -55,6 +58,45 @@ func genPair(t *rapid.T, cx *h.Ctx, disjointMembers bool, stats *gen.Stats) Pair
 	}
 	m := gen.DrawIntMap(t, -3, 2*kmax+3)
 	return PairCase{A: m.Apply(a), B: m.Apply(b), Family: fam}
+}
+
+// genHolePair: A is an annulus-like polygon (square shell, large square hole,
+// optionally an island polygon inside the hole, optionally a second small hole
+// in the solid part); B is a small geometry of any type placed inside the hole,
+// inside the island, in the solid part or straddling. Exercises the
+// point/line/polygon-in-hole paths that boundary tests alone do not decide.
+func genHolePair(t *rapid.T, cx *h.Ctx, disjointMembers bool, stats *gen.Stats) PairCase {
+	sq := func(x0, y0, x1, y1 float64, cw bool) []gm.F {
+		if cw {
+			return gm.Fs(x0, y0, x0, y1, x1, y1, x1, y0, x0, y0)
+		}
+		return gm.Fs(x0, y0, x1, y0, x1, y1, x0, y1, x0, y0)
+	}
+	shell := gm.G{T: gm.Polygon, Rings: [][]gm.F{sq(0, 0, 16, 16, false), sq(2, 2, 12, 12, true)}}
+	if rapid.Bool().Draw(t, "secondhole") {
+		shell.Rings = append(shell.Rings, sq(13, 13, 15, 15, rapid.Bool().Draw(t, "h2cw")))
+	}
+	var a gm.G = shell
+	if rapid.Bool().Draw(t, "island") {
+		island := gm.G{T: gm.Polygon, Rings: [][]gm.F{sq(4, 4, 10, 10, false)}}
+		if rapid.Bool().Draw(t, "islandhole") {
+			island.Rings = append(island.Rings, sq(6, 6, 8, 8, true))
+		}
+		a = gm.G{T: gm.MultiPolygon, Mem: []gm.G{shell, island}}
+		if rapid.Bool().Draw(t, "islandfirst") {
+			a.Mem[0], a.Mem[1] = a.Mem[1], a.Mem[0]
+		}
+	}
+	// B: a small complex placed somewhere relative to A
+	place := rapid.SampledFrom([][2]int{{3, 3}, {5, 5}, {6, 6}, {2, 2}, {0, 0}, {12, 12}, {13, 1}, {7, 3}, {3, 8}}).Draw(t, "place")
+	cb := gen.DrawComplex(t, rapid.IntRange(1, 2).Draw(t, "kb"), place)
+	tb := rapid.SampledFrom(gm.Types).Draw(t, "typeB")
+	b := cb.Geom(t, tb, 0, disjointMembers, stats)
+	if rapid.Bool().Draw(t, "swap") {
+		a, b = b, a
+	}
+	m := gen.DrawIntMap(t, -3, 19)
+	return PairCase{A: m.Apply(a), B: m.Apply(b), Family: "hole-nesting"}
 }
 
 // pairDomain classifies a pair: strict (clearance >= 1e-6 x magnitude) or sub-tolerance.
